@@ -173,6 +173,9 @@ def run_property(prop, tier, seed, args, t0):
                     spurious.append({"obligation": name, "model": o["model"], "detail": str(rp.get("detail"))[:500]})
                     undecided.append({"case": cid, "obligation": name, "reasons": [
                         "spurious counter-model: the real code satisfies the contract on the replayed input (abstraction imprecise here)"]})
+                elif "replay adapter crashed" in str(rp.get("detail", "")):
+                    cl["undecided"] += 1
+                    undecided.append({"case": cid, "obligation": name, "reasons": ["counter-model found but the replay adapter crashed (harness defect, not a verdict): " + str(rp.get("detail"))[-300:]]})
                 else:
                     # definite sat, no executable replay
                     json.dump(rec, open(rfile, "w"), indent=1)
@@ -188,9 +191,15 @@ def run_property(prop, tier, seed, args, t0):
         for bm in load_bounded(prop):
             try:
                 br = bm.run(tier=tier, seed=seed)
-            except BaseException:
-                crashes.append((bm.__name__, traceback.format_exc()))
-                continue
+            except BaseException as e:
+                cls = runner.classify_replay_exception(e)
+                if cls.get("violates"):
+                    # the code under test raised inside the bounded harness: a failing input on the real code
+                    br = {"name": bm.__name__, "evaluations": 1, "distinct_nontrivial": 1, "bound": "aborted by an exception in the code under test",
+                          "rule": "", "samples": [], "violations": [{"key": f"exception/{bm.__name__.split('.')[-1]}", "input": {}, "detail": cls["detail"], "entry": None}]}
+                else:
+                    crashes.append((bm.__name__, traceback.format_exc()))
+                    continue
             for v in br.get("violations", []):
                 key = "bounded:" + v["key"]
                 rfile = os.path.join(VERIF, "replays", prop, _safe(key) + ".json")
